@@ -486,6 +486,9 @@ func exec(c px.Context, op string, args []sx.Sexp) (res core.Result) {
 	if op == "tn" {
 		return execTn(args)
 	}
+	if op == "lfor" {
+		return execLfor(args)
+	}
 	if op != "hist" {
 		return core.Result{Out: "bad-op", Pred: "n/a"}
 	}
@@ -1194,6 +1197,7 @@ func gen(g *core.G) {
 	genDep(g, maxLen)
 	genCase(g)
 	genKey(g)
+	genLfor(g)
 	genStatic(g, maxLen)
 
 	// 2. random histories of length 40 (every third one: 3..8) over random trees of depth <= 3
